@@ -1,0 +1,188 @@
+//go:build verif
+
+package quickfix
+
+// Machine-checked contracts of the session layer (build tag verif; comments only).
+// Vocabulary: inbound messages are read through fhas/fval/fint; the message store is used through the
+// MessageStore interface contracts (ghost next-target #T and next-sender #S); application and log callbacks
+// through their interface contracts (assumptions about user code, listed in the evidence).
+
+//@ immutable msgTypeHeartbeat "0"
+//@ immutable msgTypeLogon "A"
+//@ immutable msgTypeTestRequest "1"
+//@ immutable msgTypeResendRequest "2"
+//@ immutable msgTypeReject "3"
+//@ immutable msgTypeSequenceReset "4"
+//@ immutable msgTypeLogout "5"
+
+// ---- accessors --------------------------------------------------------------------------------------
+//@ spec fhas(m FieldMap, t Tag) bool = has(m.tagLookup, t)
+//@ spec fval(m FieldMap, t Tag) []byte = m.tagLookup[t][0].value
+//@ spec fint(m FieldMap, t Tag) mathint = intval(m.tagLookup[t][0].value)
+//@ spec msgok(msg *Message) bool = msg != nil && fmvals(msg.Header.FieldMap) && fmvals(msg.Body.FieldMap) && fmvals(msg.Trailer.FieldMap) && msg.Header.rwLock != nil && msg.Body.rwLock != nil && msg.Trailer.rwLock != nil
+//@ spec isadmin(m []byte) bool = len(m) == 1 && (m[0] == 48 || m[0] == 65 || m[0] == 49 || m[0] == 50 || m[0] == 51 || m[0] == 52 || m[0] == 53)
+
+//@ func isAdminMessageType [C01,C06,C08]
+//@   pure
+//@   ensures result <==> isadmin(m)
+
+// ---- assumptions about the user-supplied log --------------------------------------------------------
+//@ iface Log.OnEvent(recv, s)
+//@   pure
+//@ iface Log.OnEventf(recv, format, a)
+//@   pure
+//@ iface Log.OnIncoming(recv, b)
+//@   pure
+//@ iface Log.OnOutgoing(recv, b)
+//@   pure
+
+// ---- the message store as the session sees it (ghost counters; implementations: C16) -----------------
+//@ ghost MessageStore.T int
+//@ ghost MessageStore.S int
+//@ iface MessageStore.NextTargetMsgSeqNum(recv)
+//@   pure
+//@   ensures result == recv.#T
+//@ iface MessageStore.NextSenderMsgSeqNum(recv)
+//@   pure
+//@   ensures result == recv.#S
+//@ iface MessageStore.IncrNextTargetMsgSeqNum(recv)
+//@   modifies recv.#T
+//@   ensures result == nil ==> recv.#T == wrap64(old(recv.#T) + 1)
+//@   ensures result != nil ==> recv.#T == old(recv.#T)
+//@ iface MessageStore.IncrNextSenderMsgSeqNum(recv)
+//@   modifies recv.#S
+//@   ensures result == nil ==> recv.#S == wrap64(old(recv.#S) + 1)
+//@   ensures result != nil ==> recv.#S == old(recv.#S)
+//@ iface MessageStore.SetNextTargetMsgSeqNum(recv, next)
+//@   modifies recv.#T
+//@   ensures result == nil ==> recv.#T == next
+//@   ensures result != nil ==> recv.#T == old(recv.#T)
+//@ iface MessageStore.SetNextSenderMsgSeqNum(recv, next)
+//@   modifies recv.#S
+//@   ensures result == nil ==> recv.#S == next
+//@   ensures result != nil ==> recv.#S == old(recv.#S)
+//@ iface MessageStore.SaveMessage(recv, seqNum, msg)
+//@   pure
+//@ iface MessageStore.SaveMessageAndIncrNextSenderMsgSeqNum(recv, seqNum, msg)
+//@   modifies recv.#S
+//@   ensures result == nil ==> recv.#S == wrap64(old(recv.#S) + 1)
+//@   ensures result != nil ==> recv.#S == old(recv.#S)
+//@ iface MessageStore.Reset(recv)
+//@   modifies recv.#S, recv.#T
+//@   ensures result == nil ==> recv.#S == 1 && recv.#T == 1
+//@ iface MessageStore.Refresh(recv)
+//@   modifies recv.#S, recv.#T
+//@ iface MessageStore.CreationTime(recv)
+//@   pure
+//@ iface MessageStore.Close(recv)
+//@   pure
+
+// ---- session-level checks (C06): result class as a total function of the header fields -----------------
+//@ func (s *session) checkBeginString [C06]
+//@   requires msgok(msg)
+//@   ensures @ok (result == nil) <==> (fhas(msg.Header.FieldMap, 8) && string(fval(msg.Header.FieldMap, 8)) == s.sessionID.BeginString)
+//@   ensures @missing !fhas(msg.Header.FieldMap, 8) ==> mre(result, 1, 8)
+//@   ensures @wrong fhas(msg.Header.FieldMap, 8) && string(fval(msg.Header.FieldMap, 8)) != s.sessionID.BeginString ==> result is incorrectBeginString
+//@   modifies fresh H.quickfix.messageRejectError.*, fresh P.quickfix.Tag, fresh H.quickfix.incorrectBeginString.*
+
+//@ spec compidok(s *session, msg *Message) bool = fhas(msg.Header.FieldMap, 49) && fhas(msg.Header.FieldMap, 56) && len(fval(msg.Header.FieldMap, 56)) != 0 && len(fval(msg.Header.FieldMap, 49)) != 0 && s.sessionID.SenderCompID == string(fval(msg.Header.FieldMap, 56)) && s.sessionID.TargetCompID == string(fval(msg.Header.FieldMap, 49))
+//@ func (s *session) checkCompID [C06]
+//@   requires msgok(msg)
+//@   ensures @ok (result == nil) <==> compidok(s, msg)
+//@   ensures @nosender !fhas(msg.Header.FieldMap, 49) ==> mre(result, 1, 49)
+//@   ensures @notarget fhas(msg.Header.FieldMap, 49) && !fhas(msg.Header.FieldMap, 56) ==> mre(result, 1, 56)
+//@   ensures @emptytarget fhas(msg.Header.FieldMap, 49) && fhas(msg.Header.FieldMap, 56) && len(fval(msg.Header.FieldMap, 56)) == 0 ==> mre(result, 4, 56)
+//@   ensures @emptysender fhas(msg.Header.FieldMap, 49) && fhas(msg.Header.FieldMap, 56) && len(fval(msg.Header.FieldMap, 56)) != 0 && len(fval(msg.Header.FieldMap, 49)) == 0 ==> mre(result, 4, 49)
+//@   ensures @mismatch fhas(msg.Header.FieldMap, 49) && fhas(msg.Header.FieldMap, 56) && len(fval(msg.Header.FieldMap, 56)) != 0 && len(fval(msg.Header.FieldMap, 49)) != 0 && !compidok(s, msg) ==> mrenotag(result, 9)
+//@   modifies fresh H.quickfix.messageRejectError.*, fresh P.quickfix.Tag
+
+// sequence number gates (C01): nil iff MsgSeqNum is present, an integer, and not below / not above the expected number
+//@ spec seqok(msg *Message) bool = fhas(msg.Header.FieldMap, 34) && isint(fval(msg.Header.FieldMap, 34))
+//@ func (s *session) checkTargetTooLow [C01,C06]
+//@   requires msgok(msg) && s.store != nil
+//@   ensures @ok (result == nil) <==> (seqok(msg) && fint(msg.Header.FieldMap, 34) >= s.store.#T)
+//@   ensures @missing !fhas(msg.Header.FieldMap, 34) ==> mre(result, 1, 34)
+//@   ensures @malformed fhas(msg.Header.FieldMap, 34) && !isint(fval(msg.Header.FieldMap, 34)) ==> mre(result, 6, 34)
+//@   ensures @low seqok(msg) && fint(msg.Header.FieldMap, 34) < s.store.#T ==> result is targetTooLow && unbox(result, targetTooLow).ReceivedTarget == fint(msg.Header.FieldMap, 34) && unbox(result, targetTooLow).ExpectedTarget == s.store.#T
+//@   modifies fresh H.quickfix.messageRejectError.*, fresh P.quickfix.Tag, fresh H.quickfix.targetTooLow.*, fresh P.quickfix.FIXInt
+
+//@ func (s *session) checkTargetTooHigh [C01,C04,C06]
+//@   requires msgok(msg) && s.store != nil
+//@   ensures @ok (result == nil) <==> (seqok(msg) && fint(msg.Header.FieldMap, 34) <= s.store.#T)
+//@   ensures @missing !fhas(msg.Header.FieldMap, 34) ==> mre(result, 1, 34)
+//@   ensures @malformed fhas(msg.Header.FieldMap, 34) && !isint(fval(msg.Header.FieldMap, 34)) ==> mre(result, 6, 34)
+//@   ensures @high seqok(msg) && fint(msg.Header.FieldMap, 34) > s.store.#T ==> result is targetTooHigh && unbox(result, targetTooHigh).ReceivedTarget == fint(msg.Header.FieldMap, 34) && unbox(result, targetTooHigh).ExpectedTarget == s.store.#T
+//@   modifies fresh H.quickfix.messageRejectError.*, fresh P.quickfix.Tag, fresh H.quickfix.targetTooHigh.*, fresh P.quickfix.FIXInt
+
+//@ spec latencyok(s *session, msg *Message) bool = s.SkipCheckLatency || (fhas(msg.Header.FieldMap, 52) && tsaccept(fval(msg.Header.FieldMap, 52)) && wrap64(-1 * s.MaxLatency) < since(tslayoutval(fval(msg.Header.FieldMap, 52))) && since(tslayoutval(fval(msg.Header.FieldMap, 52))) < s.MaxLatency)
+//@ func (s *session) checkSendingTime [C06]
+//@   requires msgok(msg)
+//@   ensures @ok (result == nil) <==> latencyok(s, msg)
+//@   ensures @missing !s.SkipCheckLatency && !fhas(msg.Header.FieldMap, 52) ==> mre(result, 1, 52)
+//@   ensures @malformed !s.SkipCheckLatency && fhas(msg.Header.FieldMap, 52) && !tsaccept(fval(msg.Header.FieldMap, 52)) ==> mre(result, 6, 52)
+//@   ensures @window !s.SkipCheckLatency && fhas(msg.Header.FieldMap, 52) && tsaccept(fval(msg.Header.FieldMap, 52)) && !latencyok(s, msg) ==> mrenotag(result, 10)
+//@   modifies fresh H.quickfix.messageRejectError.*, fresh P.quickfix.Tag, fresh H.quickfix.FIXUTCTimestamp.*, fresh H.time.Time.*, fresh P.string, fresh E.any, fresh P.sl.uint8
+
+// ---- assumptions about the application and the validator (user code) ------------------------------------
+// inbound callbacks do not modify the session, its store or the message; they return nil or a reject value
+//@ uspec validok(v Validator, msg *Message) bool
+//@ iface Validator.Validate(recv, msg)
+//@   pure
+//@   ensures (result == nil) <==> validok(recv, msg)
+//@ iface Application.FromApp(recv, message, sessionID)
+//@   pure
+//@ iface Application.FromAdmin(recv, message, sessionID)
+//@   pure
+//@ iface Application.OnLogon(recv, sessionID)
+//@   pure
+//@ iface Application.OnLogout(recv, sessionID)
+//@   pure
+//@ iface Application.OnCreate(recv, sessionID)
+//@   pure
+
+// ---- the gate in front of the inbound callbacks (C01, C06) -----------------------------------------------
+//@ spec beginstringok(s *session, msg *Message) bool = fhas(msg.Header.FieldMap, 8) && string(fval(msg.Header.FieldMap, 8)) == s.sessionID.BeginString
+//@ spec inresend(s *session) bool = s.State is resendState
+//@ spec islogon(msg *Message) bool = fhas(msg.Header.FieldMap, 35) && len(fval(msg.Header.FieldMap, 35)) == 1 && fval(msg.Header.FieldMap, 35)[0] == 65
+//@ spec gate(s *session, msg *Message) bool = beginstringok(s, msg) && compidok(s, msg) && (inresend(s) || latencyok(s, msg))
+//@ spec atexpected(s *session, msg *Message) bool = seqok(msg) && fint(msg.Header.FieldMap, 34) == s.store.#T
+//@ spec sessionok(s *session) bool = s.store != nil && s.application != nil && s.log != nil
+
+// fromCallback is the only place the inbound callbacks are invoked from: an application message is handed over
+// only through the gate and only when it carries exactly the expected number; an administrative message other
+// than Logon only through the gate
+//@ func (s *session) fromCallback [C01,C06,C08]
+//@   requires msgok(msg) && sessionok(s)
+//@   requires @gate fhas(msg.Header.FieldMap, 35) && !islogon(msg) ==> gate(s, msg) && (s.Validator == nil || validok(s.Validator, msg))
+//@   requires @inorder fhas(msg.Header.FieldMap, 35) && !isadmin(fval(msg.Header.FieldMap, 35)) ==> atexpected(s, msg)
+//@   ensures @notype !fhas(msg.Header.FieldMap, 35) ==> result != nil
+//@   pure
+
+//@ func (s *session) verifyMsgAgainstAppImpl [C01,C06]
+//@   requires msgok(msg) && sessionok(s)
+//@   requires @gate fhas(msg.Header.FieldMap, 35) && !islogon(msg) ==> gate(s, msg)
+//@   requires @inorder fhas(msg.Header.FieldMap, 35) && !isadmin(fval(msg.Header.FieldMap, 35)) ==> atexpected(s, msg)
+//@   ensures @validated result == nil ==> (s.Validator == nil || validok(s.Validator, msg)) && fhas(msg.Header.FieldMap, 35)
+//@   pure
+
+// verifySelect: the checks in order, then (optionally) validation and the callback; nil only through the gate
+//@ func (s *session) verifySelect [C01,C04,C06]
+//@   requires msgok(msg) && sessionok(s)
+//@   requires @relaxed checkAppImpl && !(checkTooHigh && checkTooLow) ==> !fhas(msg.Header.FieldMap, 35) || isadmin(fval(msg.Header.FieldMap, 35))
+//@   ensures @bs !beginstringok(s, msg) ==> result != nil && (fhas(msg.Header.FieldMap, 8) ==> result is incorrectBeginString) && (!fhas(msg.Header.FieldMap, 8) ==> mre(result, 1, 8))
+//@   ensures @compid beginstringok(s, msg) && !compidok(s, msg) ==> result != nil && !(result is incorrectBeginString) && !(result is targetTooHigh) && !(result is targetTooLow) && ismre(result) && (rejreason(result) == 1 || rejreason(result) == 4 || rejreason(result) == 9)
+//@   ensures @latency beginstringok(s, msg) && compidok(s, msg) && !inresend(s) && !latencyok(s, msg) ==> result != nil && ismre(result) && (rejreason(result) == 1 || rejreason(result) == 6 || rejreason(result) == 10)
+//@   ensures @toolow gate(s, msg) && checkTooLow && seqok(msg) && fint(msg.Header.FieldMap, 34) < s.store.#T ==> result is targetTooLow && unbox(result, targetTooLow).ReceivedTarget == fint(msg.Header.FieldMap, 34) && unbox(result, targetTooLow).ExpectedTarget == s.store.#T
+//@   ensures @toohigh gate(s, msg) && checkTooHigh && seqok(msg) && (checkTooLow ==> fint(msg.Header.FieldMap, 34) >= s.store.#T) && fint(msg.Header.FieldMap, 34) > s.store.#T ==> result is targetTooHigh && unbox(result, targetTooHigh).ReceivedTarget == fint(msg.Header.FieldMap, 34) && unbox(result, targetTooHigh).ExpectedTarget == s.store.#T
+//@   ensures @nil result == nil ==> gate(s, msg) && (checkTooLow ==> seqok(msg) && fint(msg.Header.FieldMap, 34) >= s.store.#T) && (checkTooHigh ==> seqok(msg) && fint(msg.Header.FieldMap, 34) <= s.store.#T) && (checkAppImpl ==> (s.Validator == nil || validok(s.Validator, msg)) && fhas(msg.Header.FieldMap, 35))
+//@   ensures @store s.store.#T == old(s.store.#T) && s.store.#S == old(s.store.#S)
+//@   pure
+
+//@ func (s *session) verify [C01,C06]
+//@   requires msgok(msg) && sessionok(s)
+//@   ensures @nil result == nil ==> gate(s, msg) && atexpected(s, msg) && (s.Validator == nil || validok(s.Validator, msg)) && fhas(msg.Header.FieldMap, 35)
+//@   ensures @bs !beginstringok(s, msg) ==> result != nil && (fhas(msg.Header.FieldMap, 8) ==> result is incorrectBeginString) && (!fhas(msg.Header.FieldMap, 8) ==> mre(result, 1, 8))
+//@   ensures @toolow gate(s, msg) && seqok(msg) && fint(msg.Header.FieldMap, 34) < s.store.#T ==> result is targetTooLow && unbox(result, targetTooLow).ReceivedTarget == fint(msg.Header.FieldMap, 34) && unbox(result, targetTooLow).ExpectedTarget == s.store.#T
+//@   ensures @toohigh gate(s, msg) && seqok(msg) && fint(msg.Header.FieldMap, 34) > s.store.#T ==> result is targetTooHigh && unbox(result, targetTooHigh).ReceivedTarget == fint(msg.Header.FieldMap, 34) && unbox(result, targetTooHigh).ExpectedTarget == s.store.#T
+//@   ensures @store s.store.#T == old(s.store.#T) && s.store.#S == old(s.store.#S)
+//@   pure
